@@ -253,6 +253,7 @@ func judgeLockHistory(rec *vkit.Rec, h *lockHistory) {
 	}
 	rec.Count("histories/"+b, 1)
 	rec.Nontrivial(fmt.Sprintf("%s %d %d %d %v", b, h.Contenders, h.Rounds, h.Seed, h.LongHolder))
+	rec.Sample(map[string]any{"backend": b, "contenders": h.Contenders, "rounds": h.Rounds, "ttl": h.TTL.String(), "lock_ops_recorded": len(h.Ops), "critical_sections": len(h.CS), "acquisition_order": strings.Join(order, "")})
 }
 
 func TestC18(t *testing.T) {
@@ -486,6 +487,7 @@ func TestC19(t *testing.T) {
 		}
 		_ = a.Unlock(bg)
 		rec.Nontrivial(fmt.Sprintf("%+v", *c))
+		rec.Sample(c)
 	}
 
 	if env.Replay != "" {
@@ -690,6 +692,7 @@ func c19ClusterLevel(t *testing.T, env *vkit.Env, rec *vkit.Rec, replay *c19Clus
 			rec.Inconclusive("the parked operation did not return after its release")
 		}
 		rec.Nontrivial(fmt.Sprintf("%+v", *c))
+		rec.Sample(c)
 	}
 	if replay != nil {
 		run(replay)
